@@ -34,6 +34,22 @@ pub fn has_multiline_comment_followed_by_comment(source: &str) -> bool {
     })
 }
 
+/// a string / interpolated-string token spanning several lines that ends on the line of a compound
+/// assignment operator or the line before, and stands in front of it
+pub fn has_multiline_token_before_compound_operator(source: &str) -> bool {
+    let Ok(l) = lex(source, Mode::Luau) else { return false };
+    let ops: Vec<&crate::luasyn::lex::Token> = l
+        .tokens
+        .iter()
+        .filter(|t| t.kind == TokKind::Symbol && t.text.len() >= 2 && t.text.ends_with('=') && !matches!(t.text.as_str(), "==" | "~=" | "<=" | ">="))
+        .collect();
+    l.tokens.iter().any(|s| {
+        !matches!(s.kind, TokKind::Symbol | TokKind::Name | TokKind::Keyword | TokKind::Number | TokKind::Eof)
+            && s.end_line > s.line
+            && ops.iter().any(|o| s.start < o.start && o.line <= s.end_line + 1)
+    })
+}
+
 /// known finding "local-multiline-name-list": a `local` / `const` declaration whose list of
 /// (typed) names is written over several lines
 pub fn has_multiline_local_name_list(source: &str) -> bool {
@@ -416,6 +432,12 @@ fn run(ctx: &RunCtx) {
                     })
                     .unwrap_or(false)
             {
+                st.class("config_skipped_known_finding");
+                continue;
+            }
+            // the prefix / key of a compound assignment is written twice: a token of the target that
+            // spans several lines (a multi-line string) takes its lines twice (same known finding)
+            if avoid_compound_target && config.contains("remove_compound_assignment") && has_multiline_token_before_compound_operator(&source) {
                 st.class("config_skipped_known_finding");
                 continue;
             }
